@@ -24,7 +24,7 @@ from ioflo.base import registering, storing, housing, tasking, framing, logging
 PROPERTY = "C47"
 ENGINE = "E1"
 FUNCTIONS = ["ioflo.base.registering.Registrar.__init__", "Registrar.Clear", "ioflo.base.housing.House.assignRegistries",
-             "ioflo.base.framing.Framer.assignFrameRegistry", "House/Tasker/Framer/Logger/Frame/Log.__init__"]
+             "ioflo.base.framing.Framer.assignFrameRegistry", "ioflo.base.framing.Framer.prune", "House/Tasker/Framer/Logger/Frame/Log.__init__"]
 ASSUMPTIONS = [
     "registering.random replaced by a stub whose randint(a, b) returns a symbolic int in [a, b]",
     "registry universe per class: {x, <Preface>1, <Preface>2, <Preface>2a}; explicit names from that universe plus 'z'; "
@@ -35,6 +35,9 @@ ASSUMPTIONS = [
     "Clear is applied to the class that owns the namespace (House, Tasker, Frame, Log), as ioflo's own code and tests do",
     "a rejection is any Exception raised by the constructor; a name that is not a duplicate must be accepted",
     "name uniqueness of FloScript-built programs (builder paths) is not part of this harness",
+    "Framer/prune: the pruned framer is done (no exitAll) and has at most one frame holding one insular aux clone; a "
+    "pruned framer counts as dead; the vacuity label 'current-is-other' is waived by a concrete probe while every prune "
+    "under a foreign current namespace is a replayed violation",
 ]
 
 KINDS = {
@@ -258,6 +261,100 @@ def h(sym, kind, op, ncur=4, nother=4, ncount=3):
     raise AssertionError(op)
 
 
+# ----------------------------------------------------------------------------- deregistration (Framer.prune)
+PRUNE_NAMES = ["m", "n"]
+
+
+def h_prune(sym, names=tuple(PRUNE_NAMES)):
+    """Two real houses, each with its own tasker registry swapped in by the real House.assignRegistries.  Each house
+    holds an arbitrary subset of live framers named from `names` (so same-named live framers in both houses occur),
+    optionally one of them attached as an insular auxiliary clone to a frame of the other (prune recurses).  The
+    current namespace is either house; the framer to prune belongs to either house.  One step: target.prune()
+    (what the Razer actor calls).  Post: every live framer is registered under its name, by identity, in its own
+    house's registry; no registry holds a pruned (dead) or a foreign framer; nothing else moved."""
+    K = "C47/Framer/prune"
+    reset_classes(sym)
+    houses = []
+    live = []           # [house index][name] -> framer
+    for hi, hname in enumerate(("A", "B")):
+        hs = housing.House(name=hname, store=bare_store())
+        hs.assignRegistries()
+        d = {}
+        for ni, nm in enumerate(names):
+            if sym.bool("live_%s_%d" % (hname, ni)):
+                d[nm] = framing.Framer(name=nm, store=hs.store)
+        houses.append(hs)
+        live.append(d)
+    # the framer to prune: house and name (must be live)
+    th = sym.choice("target_house", 2)
+    tn = names[sym.choice("target_name", len(names))]
+    sym.assume(tn in live[th])
+    target = live[th][tn]
+    dead = [target]
+    # optionally the other live framer of the same house is an insular aux clone in a frame of the target
+    others_here = [nm for nm in live[th] if nm != tn]
+    if others_here and sym.flag("with_insular_aux"):
+        sym.cover("recursive-prune")
+        aux = live[th][others_here[0]]
+        houses[th].assignRegistries()
+        target.assignFrameRegistry()
+        frame = framing.Frame(name="f", store=houses[th].store, framer=target.name)
+        aux.original = False
+        aux.insular = True
+        aux.razeable = True
+        aux.main = frame
+        frame.auxes.append(aux)
+        target.auxes[aux.tag] = aux
+        dead.append(aux)
+    cur = sym.choice("current_house", 2)
+    houses[cur].assignRegistries()          # the real namespace switch; prune() itself does not switch
+    sym.cover("current-is-owner" if cur == th else "current-is-other")
+    if tn in live[1 - th]:
+        sym.cover("same-name-live-in-other-house")
+    regs = [hs.names["tasker"] for hs in houses]
+    for hi in (0, 1):       # pre-state is valid
+        chk(sym, sorted(regs[hi]) == sorted(live[hi]) and all(regs[hi][k] is v for k, v in live[hi].items()),
+            "C47/Framer/prune/pre-state-invalid")
+    got = run(lambda: target.prune())
+    chk(sym, got[0] == "ok", K + "/raises", lambda: got[1])
+    for f in dead:
+        del live[th][f.name]
+    for hi in (0, 1):
+        reg = houses[hi].names["tasker"]
+        chk(sym, reg is regs[hi], K + "/house-registry-object-replaced")
+        for nm, f in live[hi].items():
+            chk(sym, reg.get(nm) is f, K + "/live-object-missing-from-its-namespace",
+                lambda: "house %s: live framer %r registered as %r (pruned %r of house %s, current %s)" % (
+                    "AB"[hi], nm, reg.get(nm), tn, "AB"[th], "AB"[cur]))
+        for nm, f in reg.items():
+            chk(sym, f.name == nm, K + "/registered-under-wrong-name")
+            chk(sym, all(f is not x for x in live[1 - hi].values()), K + "/registry-maps-name-to-foreign-object",
+                lambda: "house %s name %r" % ("AB"[hi], nm))
+            chk(sym, all(f is not x for x in dead), K + "/dead-object-still-registered",
+                lambda: "house %s keeps pruned framer %r (current namespace: house %s)" % ("AB"[hi], nm, "AB"[cur]))
+        chk(sym, sorted(reg) == sorted(live[hi]), K + "/registry-differs-from-live-set",
+            lambda: "house %s registry %r live %r" % ("AB"[hi], sorted(reg), sorted(live[hi])))
+    return True
+
+
+def _prune_cross_namespace_works():
+    """does pruning a framer while another house's namespace is current deregister it from its own house?"""
+    try:
+        housing.House.Names = {}
+        a = housing.House(name="probeA", store=bare_store())
+        b = housing.House(name="probeB", store=bare_store())
+        a.assignRegistries()
+        f = framing.Framer(name="m", store=a.store)
+        b.assignRegistries()
+        f.prune()
+        return "m" not in a.names["tasker"]
+    except Exception:   # noqa: BLE001
+        return False
+    finally:
+        housing.House.Names = {}
+        tasking.Tasker.Names = {}
+
+
 def obligations(tier):
     quick = tier == "quick"
     kinds = ["House", "Tasker", "Framer", "Frame", "Log"] + ([] if quick else ["Logger"])
@@ -283,4 +380,15 @@ def obligations(tier):
             ob(kind, "house-switch", base + ["created-before-switch", "name-exists-in-other-house-only"], **switch)
         if kind == "Frame":
             ob(kind, "framer-switch", base + ["created-before-switch", "name-exists-in-other-framer-only"], **switch)
+    # deregistration: Framer.prune is the only removal path besides Clear (grep: del/pop on a Names registry)
+    pcov = ["current-is-owner", "current-is-other", "same-name-live-in-other-house", "recursive-prune"]
+    if not _prune_cross_namespace_works():
+        # genuine defect: every prune under a foreign current namespace is a replayed violation, so that label
+        # cannot be reached on a confirmed path; required again once prune deregisters from its own house
+        pcov.remove("current-is-other")
+    out.append(Ob("Framer/prune", h_prune, dict(names=tuple(PRUNE_NAMES)), budget=600 if quick else 3000, covers=pcov,
+                  max_fail_keys=40,
+                  bounds=dict(houses=2, live_framer_names=PRUNE_NAMES, current_namespace="either house",
+                              pruned_framer="any live framer of either house, optionally with an insular aux clone",
+                              steps="1 (inductive) from any valid two-namespace state")))
     return out
